@@ -234,7 +234,8 @@ def run_impl(wd, case, refmode, perturb=None):
         if refmode:
             with open(fa, "w") as f:
                 for c in contigs(case):
-                    f.write(f">{c}\n{case['ref']}\n")
+                    seq = case["decoy"].get("ref", case["ref"]) if c == DECOY else case["ref"]
+                    f.write(f">{c}\n{seq}\n")
             import pysam
             pysam.faidx(fa)
             fasta = pyfaidx.Fasta(fa, as_raw=True, sequence_always_upper=True)
@@ -244,8 +245,22 @@ def run_impl(wd, case, refmode, perturb=None):
                            use_supplementary=o["use_supp"],
                            supplementary_distance_threshold=case.get("threshold", 100000)) as rsr:
             gt = o.get("gt")
-            rs = rsr.read(CHROM, variants, None if sample is None else sm_name(case, sample), reference,
-                          restricted_genotypes=None if gt is None else [Genotype(list(g)) for g in gt])
+            smp = None if sample is None else sm_name(case, sample)
+            rgt = None if gt is None else [Genotype(list(g)) for g in gt]
+            # history on ONE reader object (as `whatshap phase` reuses its reader for every chromosome): an earlier call
+            # for the twin contig (same coordinates, REF/ALT of the substitutions swapped) and / or the same call before
+            for h in case.get("history", []):
+                try:
+                    if h == "twin":
+                        tv = [BiallelicVcfVariant(p, r, a) for p, r, a in case["decoy"]["listed"]]
+                        rsr.read(DECOY, tv, smp, fasta[DECOY] if refmode else None,
+                                 restricted_genotypes=None if gt is None else
+                                 [Genotype(list(g)) for g in case["decoy"]["gt"]])
+                    else:
+                        rsr.read(CHROM, variants, smp, reference, restricted_genotypes=rgt)
+                except (AssertionError, SampleNotFoundError, KeyError):
+                    pass                    # the judged call below shows the same class
+            rs = rsr.read(CHROM, variants, smp, reference, restricted_genotypes=rgt)
             out = sorted((key.get((r.source_id, int(r.name[1:])), 9000 + int(r.name[1:])),
                           [(v.position, v.allele, v.quality) for v in r]) for r in rs)
     except AssertionError:
@@ -544,12 +559,89 @@ def gen_case(rng, small=False):
                 if a["nid"] == n1:
                     a["qname"] = n0            # same QNAME in two files: still two reads
     extra["nfiles"] = nfiles
-    if rng.random() < 0.25:
+    r = rng.random()
+    if r < 0.2:
         # a second contig with copies of some alignments (same names, same read groups): must not be fetched
         extra["decoy"] = dict(first=rng.random() < 0.5, alns=[dict(a) for a in rng.sample(alns, min(len(alns), 2))])
+    elif r < 0.45:
+        extra["decoy"] = twin_contig(rng, ref, listed, alns, opts.get("gt"))
+        extra["history"] = rng.choice([["twin"], ["twin"], ["twin", "same"], ["same", "twin"]])
+    elif r < 0.55:
+        extra["history"] = ["same"]
     if rng.random() < 0.7:
         return [finish_case(ref, listed, carried, cols, alns, threshold, extra=extra)]
     return multi_sample_drives(rng, ref, listed, carried, cols, alns, threshold, extra)
+
+
+def gen_repeat_case(rng):
+    """an insertion / deletion of one repeat unit at the start of a homopolymer or tandem repeat, and 2-5 error-free
+    alignments of BOTH haplotypes in one case that END (or begin the next block / clip) inside the repeat: their query
+    windows at the variant are byte-identical while their CIGARs (and right reference extents) differ"""
+    unit = rng.choice(["A", "C", "G", "T", "AC", "TG", "CAG"])
+    m = rng.randint(4, 8)
+    left = G.rand_seq(rng, rng.randint(14, 40))
+    while left[-1] == unit[0] or left[-1] == unit[-1]:
+        left = left[:-1] + rng.choice(G.BASES)
+    right = G.rand_seq(rng, rng.randint(12, 30))
+    while right[0] == unit[0]:
+        right = rng.choice(G.BASES) + right[1:]
+    ref = left + unit * m + right
+    p = len(left) - 1                                    # anchor: the base in front of the repeat
+    v = (p, ref[p] + unit, ref[p]) if rng.random() < 0.5 else (p, ref[p], ref[p] + unit)
+    listed = [v]
+    if rng.random() < 0.5 and p > 12:
+        q = rng.randint(2, p - 8)
+        listed = [(q, ref[q], rng.choice([b for b in G.BASES if b != ref[q]])), v]
+    vi = listed.index(v)
+    haps = {0: (G.build_hap(ref, []), set()), 1: (G.build_hap(ref, [(v[0], v[1], v[2], vi)]), {vi})}
+    alns = []
+    c0 = rng.randint(0, max(0, p - 11))
+    opts = draw_opts(rng)
+    opts["use_supp"] = False
+    for nid in range(rng.randint(2, 5)):
+        h = nid % 2 if nid < 2 else rng.randint(0, 1)
+        cols, carried = haps[h]
+        k = rng.randint(1, m - 2) * len(unit)             # repeat bases shown before the alignment ends
+        rep0 = next(i for i, c in enumerate(cols) if c[1] == p and c[0] != "I") + 1
+        reps = [i for i in range(rep0, len(cols)) if cols[i][0] != "D"]
+        c1 = reps[k - 1] + 1 if k <= len(reps) else len(cols)
+        al = G.make_alignment(rng, cols, c0, c1, style=rng.choice(["M", "M", "EQX"]),
+                              soft=(0, rng.choice([0, 0, 3])), hard=(0, rng.choice([0, 0, 5])), trim=True)
+        if al is None:
+            continue
+        al["nid"] = nid
+        al["cols"], al["carried"] = cols, carried
+        al["qarr"] = G.quals_array(rng, len(al["seq"]), "const")
+        al["quals"] = list(al["qarr"])
+        alns.append(al)
+    if len(alns) < 2:
+        return None
+    rng.shuffle(alns)
+    extra = dict(opts=opts, names="plain", nfiles=1, stream="repeat")
+    if rng.random() < 0.3:
+        extra["history"] = ["same"]
+    opts["gt"] = None
+    opts["gmode"] = "none"
+    return [finish_case(ref, listed, set(), haps[0][0], alns, 100000, extra=extra)]
+
+
+def twin_contig(rng, ref, listed, alns, gt):
+    """a twin contig for a history on one reader: the same sequence and coordinates, but the ALT of every substitution
+    (SNV / MNP) written into the reference and its REF/ALT swapped; all alignments copied onto it (an alignment that shows
+    ALT on the real contig shows REF there).  The twin is called first, the real contig -- whose ground truth is known --
+    is judged."""
+    seq = list(ref)
+    tlisted, tgt = [], []
+    for i, (p, r, a) in enumerate(listed):
+        if not a.startswith("<") and len(r) == len(a) and "".join(seq[p:p + len(r)]) == r and rng.random() < 0.8:
+            seq[p:p + len(r)] = list(a)
+            tlisted.append((p, a, r))
+        elif "".join(seq[p:p + len(r)]) == r:
+            tlisted.append((p, r, a))
+        else:
+            continue
+        tgt.append([0, 1] if gt is None else ([1 - x for x in gt[i]] if len(r) == len(a) else gt[i]))
+    return dict(first=rng.random() < 0.5, alns=[dict(a) for a in alns], ref="".join(seq), listed=tlisted, gt=tgt)
 
 
 def multi_sample_drives(rng, ref, listed, carried, cols, alns, threshold, extra=None):
@@ -617,7 +709,8 @@ def finish_case(ref, listed, carried, cols, alns, threshold=100000, header=((0, 
     malformed = sample is not None and (not any(sm == sample for _, sm in header) or any(a.get("rg", 0) is None for a in alns))
     for a in alns:
         if usable(a, o) and in_sample(a, sample) and not malformed:
-            a["t"], a["touch"] = G.truth_of(ref, cols, listed, carried, a, overhang=o["overhang"], real=extra.get("real"))
+            a["t"], a["touch"] = G.truth_of(ref, a.get("cols", cols), listed, a.get("carried", carried), a,
+                                            overhang=o["overhang"], real=extra.get("real"))
             ncov += len(a["t"])
             by_name.setdefault(a["nid"], []).append(a)
     keys = ("truth_all", "truth_clean", "truth_skip", "must", "must_skip", "must_pair")
@@ -698,6 +791,10 @@ def case_json(case):
              alns=[aln_json(a) for a in case["alns"]])
     if case.get("decoy"):
         d["decoy"] = dict(first=case["decoy"]["first"], alns=[aln_json(a) for a in case["decoy"]["alns"]])
+        for k in ("ref", "listed", "gt"):
+            if k in case["decoy"]:
+                d["decoy"][k] = case["decoy"][k]
+    d["history"] = case.get("history", [])
     for k in KEYS:
         d[k] = [[n, [list(x) if isinstance(x, tuple) else x for x in t]] for n, t in case[k]]
     return d
@@ -710,6 +807,12 @@ def case_from_json(d):
                 opts=d.get("opts", DEFAULT_OPTS), names=d.get("names", "plain"), nfiles=d.get("nfiles", 1))
     if d.get("decoy"):
         case["decoy"] = dict(first=d["decoy"]["first"], alns=[aln_from_json(a) for a in d["decoy"]["alns"]])
+        for k in ("ref", "gt"):
+            if k in d["decoy"]:
+                case["decoy"][k] = d["decoy"][k]
+        if "listed" in d["decoy"]:
+            case["decoy"]["listed"] = [tuple(v) for v in d["decoy"]["listed"]]
+    case["history"] = d.get("history", [])
     for k in KEYS:
         case[k] = [(n, [tuple(x) if isinstance(x, list) else x for x in t]) for n, t in d[k]]
     return case
@@ -891,6 +994,13 @@ def tally_dimensions(ctx, case):
         t("same_qname_in_two_files")
     if case.get("decoy"):
         t("decoy_contig." + ("before" if case["decoy"]["first"] else "after"))
+    t("history_on_one_reader." + ("+".join(case.get("history", [])) or "single_call"))
+    if "twin" in case.get("history", []):
+        t("history.twin_swapped_substitutions", sum(1 for (p, r, a) in case["decoy"]["listed"] if (p, a, r) in case["listed"]))
+    if case.get("stream") == "repeat":
+        t("repeat_indel.cases")
+        t("repeat_indel.alignments_ending_inside_repeat", len(case["alns"]))
+        t("repeat_indel.haplotypes_in_case." + str(len({tuple(a.get("carried", ())) for a in case["alns"]})))
     t("n_listed." + ("0" if not case["listed"] else "1" if len(case["listed"]) == 1 else "2+"))
     t("n_alignments." + ("1" if len(case["alns"]) == 1 else "2-3" if len(case["alns"]) <= 3 else "4+"))
     if len(case.get("header", [0])) > 1:
@@ -1028,7 +1138,7 @@ def describe(case, refmode, out):
             f"must={case['must_pair'] if refmode else []} distance_threshold={case.get('threshold', 100000)} "
             f"read_groups(id,sample)={case.get('header', [(0, 0)])} requested_sample={case.get('sample', 0)} "
             f"alignment_RG={[a.get('rg', 0) for a in case['alns']]} options={opts_of(case)} files={case.get('nfiles', 1)} "
-            f"alignment_file={[a.get('file', 0) for a in case['alns']]} detected={out}")
+            f"alignment_file={[a.get('file', 0) for a in case['alns']]} history={case.get('history', [])} detected={out}")
 
 
 def cig_str(c):
@@ -1084,7 +1194,7 @@ def run(ctx, perturb=None):
     target_alns = ctx.n(400, 20000)
     n = 0
     while n < target_alns:
-        cs = gen_case(rng, small=rng.random() < 0.3)
+        cs = gen_repeat_case(rng) if rng.random() < 0.12 else gen_case(rng, small=rng.random() < 0.3)
         if cs is None:
             continue
         cases += cs                      # one case per drive (requested sample) of the scenario
